@@ -156,10 +156,14 @@ Record HInv (q : hq) : Prop := mkHInv {
 Lemma hinv_init : HInv hq_init.
 Proof. constructor; intros h; cbn; auto. Qed.
 
+(* the persisted counter is the in-memory counter *)
+Definition PInv (q : hq) : Prop := q_pidx q = q_idx q.
+
 (* effect of queueHooks *)
 Lemma enqueue_spec : forall now msgs q, HInv q ->
   let q' := enqueue now msgs q in
   HInv q' /\ q_idx q <= q_idx q' /\ q_taken q' = q_taken q /\ q_delivered q' = q_delivered q /\
+  (PInv q -> PInv q') /\
   forall h, exists news,
     q_db q' h = q_db q h ++ news /\
     map e_msg news = map snd (filter (fun hm => N.eqb (fst hm) h) msgs) /\
@@ -167,10 +171,11 @@ Lemma enqueue_spec : forall now msgs q, HInv q ->
 Proof.
   induction msgs as [|[h0 m] r IH]; intros q H; cbn zeta.
   - cbn [enqueue]. split; [exact H|]. split; [lia|]. split; [reflexivity|]. split; [reflexivity|].
+    split; [auto|].
     intros h. exists []. rewrite app_nil_r. auto.
   - cbn [enqueue].
     set (e := mkEntry (N.succ (q_idx q)) h0 m (now + hook_ttl)).
-    set (q1 := mkHQ (updf (q_db q) h0 (db_set e (q_db q h0))) (N.succ (q_idx q)) (q_taken q) (q_delivered q)).
+    set (q1 := mkHQ (updf (q_db q) h0 (db_set e (q_db q h0))) (N.succ (q_idx q)) (q_taken q) (q_delivered q) (N.succ (q_idx q))).
     assert (Hset : db_set e (q_db q h0) = q_db q h0 ++ [e]).
     { pose proof (db_set_mid e (q_db q h0) []) as Hmid. rewrite app_nil_r in Hmid. apply Hmid. clear Hmid.
       rewrite idxs_app.
@@ -202,8 +207,9 @@ Proof.
           * rewrite <- !app_assoc. apply (hi_hook _ H h0).
           * constructor; [reflexivity | constructor].
         + rewrite updf_other by exact Hne. apply (hi_hook _ H h). }
-    destruct (IH q1 H1) as (HI & Hle & Htk & Hdl & Hdb). fold q1.
+    destruct (IH q1 H1) as (HI & Hle & Htk & Hdl & Hpi & Hdb). fold q1.
     split; [exact HI|]. split; [cbn [q1 q_idx] in Hle; lia|]. split; [exact Htk|]. split; [exact Hdl|].
+    split; [intros _; apply Hpi; reflexivity|].
     * intros h. destruct (Hdb h) as (news & E1 & E2 & E3).
       cbn [filter fst snd]. destruct (N.eqb_spec h0 h) as [->|Hne].
       -- exists (e :: news). cbn [q1 q_db] in E1. rewrite updf_same, Hset in E1.
@@ -212,9 +218,20 @@ Proof.
       -- exists news. cbn [q1 q_db] in E1. rewrite updf_other in E1 by congruence. auto.
 Qed.
 
-Lemma qstep_hinv : forall q ev, HInv q -> HInv (qstep q ev).
+Lemma qstep_hinv : forall q ev, HInv q -> PInv q -> HInv (qstep q ev).
 Proof.
-  intros q [now msgs|h0 now outs] H.
+  intros q [now msgs|h0 now outs|now] H HP.
+  3:{ (* restart: the counter comes back unchanged, what was being sent is dropped *)
+      cbn [qstep]. unfold PInv in HP.
+      assert (Hl : forall h, line (mkHQ (q_db q) (q_pidx q) (fun _ => None) (q_delivered q) (q_pidx q)) h
+                             = q_delivered q h ++ filter (fun _ => false) (taken_list q h) ++ q_db q h).
+      { intros h. unfold line at 1, taken_list at 1. cbn [q_db q_taken q_delivered].
+        assert (E : filter (fun _ : entry => false) (taken_list q h) = []) by (induction (taken_list q h); auto).
+        rewrite E. reflexivity. }
+      constructor; intros h; rewrite Hl; cbn [q_idx]; rewrite ?HP.
+      - apply incr_mid_filter. apply (hi_incr _ H h).
+      - apply Forall_mid_filter. apply (hi_bound _ H h).
+      - apply Forall_mid_filter. apply (hi_hook _ H h). }
   - cbn [qstep]. apply (enqueue_spec now msgs q H).
   - cbn [qstep]. destruct (q_taken q h0) as [tk|] eqn:ET.
     + destruct (send_all outs tk) as [sent unsent] eqn:ES.
@@ -225,7 +242,7 @@ Proof.
       { apply reinsert_sorted. pose proof (hi_incr _ H h0) as Hi. rewrite Hl0 in Hi.
         eapply incr_unsent_db. exact Hi. }
       assert (Hnew : forall h, line (mkHQ (updf (q_db q) h0 (reinsert now unsent (q_db q h0))) (q_idx q)
-                                         (updf (q_taken q) h0 None) (updf (q_delivered q) h0 (q_delivered q h0 ++ sent))) h
+                                         (updf (q_taken q) h0 None) (updf (q_delivered q) h0 (q_delivered q h0 ++ sent)) (q_pidx q)) h
                      = if N.eqb h h0 then (q_delivered q h0 ++ sent) ++ filter (fun e => Z.ltb now (e_exat e)) unsent ++ q_db q h0
                        else line q h).
       { intros h. unfold line, taken_list. cbn [q_db q_taken q_delivered].
@@ -252,7 +269,7 @@ Proof.
     + assert (Hl0 : line q h0 = q_delivered q h0 ++ q_db q h0 ++ [])
         by (unfold line, taken_list; rewrite ET, app_nil_r; reflexivity).
       assert (Hnew : forall h, line (mkHQ (updf (q_db q) h0 []) (q_idx q)
-                                         (updf (q_taken q) h0 (Some (filter (alive now) (q_db q h0)))) (q_delivered q)) h
+                                         (updf (q_taken q) h0 (Some (filter (alive now) (q_db q h0)))) (q_delivered q) (q_pidx q)) h
                      = if N.eqb h h0 then q_delivered q h0 ++ filter (alive now) (q_db q h0) ++ [] else line q h).
       { intros h. unfold line, taken_list. cbn [q_db q_taken q_delivered].
         destruct (N.eqb_spec h h0) as [->|Hne].
@@ -265,17 +282,32 @@ Proof.
       * apply Forall_mid_filter. rewrite <- Hl0. apply (hi_hook _ H h0).
 Qed.
 
-Lemma qrun_hinv : forall evs q, HInv q -> HInv (qrun q evs).
+Lemma qstep_pinv : forall q ev, HInv q -> PInv q -> PInv (qstep q ev).
 Proof.
-  induction evs as [|ev r IH]; intros q H; [exact H|].
-  cbn [qrun fold_left]. apply IH. apply qstep_hinv. exact H.
+  intros q [now msgs|h0 now outs|now] H HP; cbn [qstep].
+  - apply (enqueue_spec now msgs q H). exact HP.
+  - destruct (q_taken q h0) as [tk|]; [destruct (send_all outs tk)|]; exact HP.
+  - reflexivity.
 Qed.
+
+Lemma qrun_hinv' : forall evs q, HInv q -> PInv q -> HInv (qrun q evs) /\ PInv (qrun q evs).
+Proof.
+  induction evs as [|ev r IH]; intros q H HP; [split; assumption|].
+  cbn [qrun fold_left]. apply IH; [apply qstep_hinv | apply qstep_pinv]; assumption.
+Qed.
+
+Lemma qrun_hinv : forall evs, HInv (qrun hq_init evs).
+Proof. intros evs. apply (qrun_hinv' evs hq_init hinv_init eq_refl). Qed.
+
+(* the counter a restarted process reads back is the counter the dead process had *)
+Theorem qidx_persisted : forall evs, q_pidx (qrun hq_init evs) = q_idx (qrun hq_init evs).
+Proof. intros evs. apply (qrun_hinv' evs hq_init hinv_init eq_refl). Qed.
 
 (* ---- order: the delivered keys are strictly increasing, always (TTL expiry included) ---- *)
 
 Theorem delivered_increasing : forall evs h, incr (idxs (q_delivered (qrun hq_init evs) h)).
 Proof.
-  intros evs h. pose proof (hi_incr _ (qrun_hinv evs _ hinv_init) h) as Hi.
+  intros evs h. pose proof (hi_incr _ (qrun_hinv evs) h) as Hi.
   unfold line in Hi. rewrite idxs_app in Hi. apply incr_app in Hi. tauto.
 Qed.
 
@@ -292,11 +324,14 @@ Proof. intros. apply incr_nodup. apply delivered_increasing. Qed.
 (* ---- loss only through the two TTL tests ---- *)
 
 Theorem ttl_only_loss : forall q ev h e, HInv q ->
+  (forall now, ev = Restart now -> q_taken q h = None) ->
   In e (pending q h) ->
   In e (pending (qstep q ev) h) \/ In e (q_delivered (qstep q ev) h) \/ (e_exat e <= qtime ev)%Z.
 Proof.
-  intros q [now msgs|h0 now outs] h e H Hin.
-  - left. cbn [qstep]. destruct (enqueue_spec now msgs q H) as (_ & _ & Htk & _ & Hdb).
+  intros q [now msgs|h0 now outs|now] h e H HR Hin.
+  3:{ left. cbn [qstep]. unfold pending, taken_list in *. cbn [q_taken q_db].
+      rewrite (HR now eq_refl) in Hin. exact Hin. }
+  - left. cbn [qstep]. destruct (enqueue_spec now msgs q H) as (_ & _ & Htk & _ & _ & Hdb).
     destruct (Hdb h) as (news & E1 & _). unfold pending, taken_list in *. rewrite Htk, E1.
     apply in_app_or in Hin. apply in_or_app. destruct Hin as [Hin|Hin]; [left; exact Hin|].
     right. apply in_or_app. left. exact Hin.
@@ -339,7 +374,7 @@ Record NInv (q : hq) (seen : list qev) : Prop := mkNInv {
 
 Lemma enq_msgs_app : forall h a b, enq_msgs h (a ++ b) = enq_msgs h a ++ enq_msgs h b.
 Proof.
-  induction a as [|[now msgs|h0 now outs] a IH]; intros b; cbn [app enq_msgs]; [reflexivity| |apply IH].
+  induction a as [|[now msgs|h0 now outs|now] a IH]; intros b; cbn [app enq_msgs]; [reflexivity| |apply IH|apply IH].
   rewrite IH. rewrite app_assoc. reflexivity.
 Qed.
 
@@ -350,10 +385,17 @@ Proof.
 Qed.
 
 Lemma qstep_ninv : forall q seen ev, HInv q -> NInv q seen -> (0 <= qtime ev < hook_ttl)%Z ->
+  (match ev with Restart _ => forall h, q_taken q h = None | _ => True end) ->
   NInv (qstep q ev) (seen ++ [ev]).
 Proof.
-  intros q seen [now msgs|h0 now outs] H Hn Ht; cbn [qtime] in Ht.
-  - cbn [qstep]. destruct (enqueue_spec now msgs q H) as (_ & _ & Htk & Hdl & Hdb).
+  intros q seen [now msgs|h0 now outs|now] H Hn Ht HQ; cbn [qtime] in Ht.
+  3:{ cbn [qstep].
+      assert (Hl : forall h, line (mkHQ (q_db q) (q_pidx q) (fun _ => None) (q_delivered q) (q_pidx q)) h = line q h).
+      { intros h. unfold line, taken_list. cbn [q_db q_taken q_delivered]. rewrite (HQ h). reflexivity. }
+      constructor; intros h; rewrite Hl.
+      - rewrite enq_msgs_app. cbn [enq_msgs]. rewrite app_nil_r. apply (ni_msgs _ _ Hn h).
+      - apply (ni_exat _ _ Hn h). }
+  - cbn [qstep]. destruct (enqueue_spec now msgs q H) as (_ & _ & Htk & Hdl & _ & Hdb).
     constructor; intros h; destruct (Hdb h) as (news & E1 & E2 & E3);
       unfold line, taken_list; rewrite Htk, Hdl, E1.
     + rewrite enq_msgs_app. cbn [enq_msgs]. rewrite app_nil_r. rewrite <- (ni_msgs _ _ Hn h).
@@ -376,7 +418,7 @@ Proof.
         - pose proof (hi_incr _ H h0) as Hi. rewrite Hl0 in Hi.
           eapply incr_unsent_db. exact Hi. }
       assert (Hnew : forall h, line (mkHQ (updf (q_db q) h0 (reinsert now unsent (q_db q h0))) (q_idx q)
-                                         (updf (q_taken q) h0 None) (updf (q_delivered q) h0 (q_delivered q h0 ++ sent))) h
+                                         (updf (q_taken q) h0 None) (updf (q_delivered q) h0 (q_delivered q h0 ++ sent)) (q_pidx q)) h
                      = line q h).
       { intros h. unfold line, taken_list. cbn [q_db q_taken q_delivered].
         destruct (N.eq_dec h h0) as [->|Hne].
@@ -388,7 +430,7 @@ Proof.
         rewrite !Forall_app in He. destruct He as (_ & _ & He).
         eapply Forall_impl; [|exact He]. cbn. intros a Ha. unfold alive. apply Z.leb_le. lia. }
       assert (Hnew : forall h, line (mkHQ (updf (q_db q) h0 []) (q_idx q)
-                                         (updf (q_taken q) h0 (Some (filter (alive now) (q_db q h0)))) (q_delivered q)) h
+                                         (updf (q_taken q) h0 (Some (filter (alive now) (q_db q h0)))) (q_delivered q) (q_pidx q)) h
                      = line q h).
       { intros h. unfold line, taken_list. cbn [q_db q_taken q_delivered].
         destruct (N.eq_dec h h0) as [->|Hne].
@@ -397,43 +439,51 @@ Proof.
       constructor; intros h; rewrite Hnew; [rewrite Hm; apply (ni_msgs _ _ Hn h) | apply (ni_exat _ _ Hn h)].
 Qed.
 
-Lemma qrun_ninv : forall evs q seen, HInv q -> NInv q seen -> in_retention evs ->
+Lemma qrun_ninv : forall evs q seen, HInv q -> PInv q -> NInv q seen -> in_retention evs -> quiet q evs ->
   HInv (qrun q evs) /\ NInv (qrun q evs) (seen ++ evs).
 Proof.
-  induction evs as [|ev r IH]; intros q seen H Hn Ht.
+  induction evs as [|ev r IH]; intros q seen H HP Hn Ht HQ.
   - rewrite app_nil_r. split; assumption.
-  - inversion Ht; subst. cbn [qrun fold_left].
+  - inversion Ht; subst. cbn [quiet] in HQ. destruct HQ as (HQ1 & HQ2). cbn [qrun fold_left].
     replace (seen ++ ev :: r) with ((seen ++ [ev]) ++ r) by (rewrite <- app_assoc; reflexivity).
-    apply IH; [apply qstep_hinv; exact H | apply qstep_ninv; assumption | assumption].
+    apply IH; [apply qstep_hinv; assumption | apply qstep_pinv; assumption | apply qstep_ninv; assumption | assumption | assumption].
 Qed.
 
 Lemma ninv_init : NInv hq_init [].
 Proof. constructor; intros h; cbn; auto. Qed.
 
 (* the messages generated for h = what was delivered, then what is being sent, then what is queued *)
-Theorem hook_order : forall evs h, in_retention evs ->
+Theorem hook_order : forall evs h, in_retention evs -> quiet hq_init evs ->
   let q := qrun hq_init evs in
   enq_msgs h evs = map e_msg (q_delivered q h) ++ map e_msg (pending q h).
 Proof.
-  intros evs h Ht q. destruct (qrun_ninv evs hq_init [] hinv_init ninv_init Ht) as (_ & Hn).
+  intros evs h Ht HQ q. destruct (qrun_ninv evs hq_init [] hinv_init eq_refl ninv_init Ht HQ) as (_ & Hn).
   cbn [app] in Hn. rewrite <- (ni_msgs _ _ Hn h). unfold line, pending. fold q.
   rewrite !map_app. reflexivity.
 Qed.
 
 Definition is_prefix {A} (p l : list A) : Prop := exists r, l = p ++ r.
 
-Theorem hook_delivered_prefix : forall evs h, in_retention evs ->
+Theorem hook_delivered_prefix : forall evs h, in_retention evs -> quiet hq_init evs ->
   is_prefix (map e_msg (q_delivered (qrun hq_init evs) h)) (enq_msgs h evs).
-Proof. intros evs h Ht. eexists. apply hook_order. exact Ht. Qed.
+Proof. intros evs h Ht HQ. eexists. apply hook_order; assumption. Qed.
+
+Lemma quiet_app : forall a q b, quiet q (a ++ b) <-> quiet q a /\ quiet (qrun q a) b.
+Proof.
+  induction a as [|ev r IH]; intros q b; cbn [app quiet qrun fold_left]; [tauto|].
+  fold (qrun (qstep q ev) r). rewrite IH. tauto.
+Qed.
 
 (* once the endpoint is healthy, three more halves of proc deliver everything *)
 Theorem hook_eventually_all : forall evs h t1 t2 t3,
-  in_retention (evs ++ [Mgr h t1 []; Mgr h t2 []; Mgr h t3 []]) ->
+  in_retention (evs ++ [Mgr h t1 []; Mgr h t2 []; Mgr h t3 []]) -> quiet hq_init evs ->
   let q := qrun hq_init (evs ++ [Mgr h t1 []; Mgr h t2 []; Mgr h t3 []]) in
   map e_msg (q_delivered q h) = enq_msgs h evs /\ q_db q h = [] /\ taken_list q h = [].
 Proof.
-  intros evs h t1 t2 t3 Ht q.
-  pose proof (hook_order _ h Ht) as Ho. fold q in Ho.
+  intros evs h t1 t2 t3 Ht HQ q.
+  assert (HQ' : quiet hq_init (evs ++ [Mgr h t1 []; Mgr h t2 []; Mgr h t3 []]))
+    by (apply quiet_app; split; [exact HQ | cbn; tauto]).
+  pose proof (hook_order _ h Ht HQ') as Ho. fold q in Ho.
   rewrite enq_msgs_app in Ho. cbn [enq_msgs] in Ho. rewrite app_nil_r in Ho.
   assert (Hp : q_db q h = [] /\ taken_list q h = []).
   { unfold q. unfold qrun. rewrite fold_left_app. fold (qrun hq_init evs).
@@ -443,7 +493,7 @@ Proof.
       inversion B as [|? ? B1 B']; subst. inversion B' as [|? ? B2 B'']; subst. inversion B'' as [|? ? B3 _]; subst.
       cbn [qtime] in *. auto. }
     destruct Hr as (Hr0 & Hr1 & Hr2 & Hr3).
-    destruct (qrun_ninv evs hq_init [] hinv_init ninv_init Hr0) as (H0 & N0). fold q0 in H0, N0.
+    destruct (qrun_ninv evs hq_init [] hinv_init eq_refl ninv_init Hr0 HQ) as (H0 & N0). fold q0 in H0, N0.
     assert (Hal : forall now, (0 <= now < hook_ttl)%Z -> filter (alive now) (q_db q0 h) = q_db q0 h).
     { intros now Hn. apply filter_all. pose proof (ni_exat _ _ N0 h) as He. unfold line in He.
       rewrite !Forall_app in He. destruct He as (_ & _ & He).
